@@ -11,7 +11,7 @@ env = dict(os.environ, PYTHONPATH=wt)
 def sh(cmd, **kw):
     return subprocess.run(cmd, cwd=wt, env=env, capture_output=True, text=True, **kw)
 def clean():
-    sh(["git", "checkout", "--", "."]); sh(["git", "clean", "-fdq", "-e", "_out", "-e", "_out2", "-e", "_out3"])
+    sh(["git", "checkout", "--", "."]); sh(["git", "clean", "-fdq", "-e", "_out", "-e", "_out2", "-e", "_out3", "-e", "_out4"])
 clean()
 # make the worktree match /repo HEAD (fixes may have been committed since it was created)
 head = subprocess.run(["git", "-C", "/repo", "rev-parse", "HEAD"], capture_output=True, text=True).stdout.strip()
